@@ -217,13 +217,17 @@ def get_model(
             right_asset.type)
 
         if not assoc:
-            logger.error(
-                'Failed to find ("%s", "%s", "%s", "%s")'
-                'association in language specification!',
+            # When two assets are linked by more than one association the
+            # query pairs every outgoing relationship with every incoming
+            # one, the pairs that mix two associations are not associations
+            # themselves.
+            logger.debug(
+                'Skip ("%s", "%s", "%s", "%s") it does not match any '
+                'association in language specification.',
                 left_asset.type, right_asset.type,
                 left_field, right_field
             )
-            return None
+            continue
 
         logger.debug('Found "%s" association.', assoc.name)
 
